@@ -51,6 +51,10 @@ def warm():
     trainer.install()
 
 
+class CannotStart(Exception):
+    """the default-flag guesser cannot build its first queue (Markov variable without entries, D18)"""
+
+
 def case_domain(pw):
     for c in pw:
         if c.isalpha():
@@ -69,7 +73,10 @@ def run_guesser(rdir, skip_brute, cap=60000, expand_m=False):
     n = 0
     with guesser.streams(out, guesser.Sink()):
         pcfg = guesser.load(rdir, skip_brute=skip_brute)
-        q = PcfgQueue(pcfg)
+        try:
+            q = PcfgQueue(pcfg)
+        except IndexError:
+            raise CannotStart()
         while True:
             item = q.next()
             if item is None:
@@ -171,7 +178,7 @@ def run_c13(t, tier, res):
         return
     try:
         strings, mass, n, err = run_guesser(tr.rule_dir, skip_brute=False)
-    except IndexError:
+    except CannotStart:
         res.rejected = "default_guesser_cannot_start(M without entries)"
         return
     except Exception:
@@ -247,6 +254,8 @@ def run_c13(t, tier, res):
             if p and p > 0:
                 got = strings.get(s)
                 if not got:
+                    # letters that are neither their own lower-case form nor its upper-case form (U+0130, title-case
+                    # digraphs such as U+01C5) cannot be rebuilt from a lower-case word and a U/L mask
                     key = None if case_domain(s) else "letter-outside-one-to-one-case-domain"
                     res.violate("C13", "scored_string_never_guessed", {"string": s, "probability": p, "category": cat}, key=key)
                     if key is None:
